@@ -144,10 +144,16 @@ class Tz:
         k = self.era(t)
         return self.types[0][0] if k < 0 else self.o[k]
 
+    def prev_offset(self, k):
+        """offset in force before transition k (before the first one: the first local time type, as the code and glibc use it)"""
+        return self.o[k - 1] if k > 0 else self.types[0][0]
+
     def instants_of_local(self, L):
-        """all instants t >= first transition whose local time is L (sorted)"""
+        """all instants whose local time is L (sorted); the era before the first transition has the first type's offset"""
         res = set()
         n = len(self.u)
+        if n == 0 or L - self.types[0][0] < self.u[0]:
+            res.add(L - self.types[0][0])
         # a local time belongs to era j iff u[j] <= L - o[j] < u[j+1]; only eras near the bound can match
         c = bisect_right(self.u, L)
         for j in range(max(0, c - 4), min(n, c + 4)):
@@ -158,15 +164,15 @@ class Tz:
 
     def skipped_by(self, L):
         """the transition k whose forward jump skipped local time L, or None"""
-        for k in range(1, len(self.u)):
-            if self.u[k] + self.o[k - 1] <= L < self.u[k] + self.o[k]:
+        for k in range(0, len(self.u)):
+            if self.u[k] + self.prev_offset(k) <= L < self.u[k] + self.o[k]:
                 return k
         return None
 
     def wellformed(self):
         """the predicate `MuduoVerif.Zone.WF` (second clause; the first one is about the reader)"""
         def chg(i):
-            return 0 if i == 0 else abs(self.o[i] - self.o[i - 1])
+            return abs(self.o[i] - self.prev_offset(i))
         bad = [i for i in range(len(self.u) - 1) if not chg(i) + chg(i + 1) < self.u[i + 1] - self.u[i]]
         return not bad, bad
 
@@ -305,7 +311,8 @@ class Prop:
     level_text = ("Kernel-checked theorems for ALL inputs: day number <-> civil date round trips for every date from -4800-03-01 on, "
                   "successor/monotonicity/weekday, BreakTime = proleptic Gregorian day counting and fromUtcTime(BreakTime t) = t; the UTC "
                   "zone look-up returns the record of the last transition <= t; fromLocalTime(toLocalTime t) = t on the right side of a "
-                  "repeated period (including the one of the LAST transition), the other side gives the other instant, skipped local "
+                  "repeated period (including the ones of the LAST and of the FIRST transition, and for instants before the first "
+                  "transition), the other side gives the other instant, skipped local "
                   "times resolve by the requested side - for every zone table satisfying the decidable predicate WF, which the check "
                   "evaluates on every zone file present; the zone-file reader inverts the RFC 8536 encoder for every well-formed zone "
                   "description (any number of transitions/types, signed 32/64-bit times, with or without the second block, any version "
@@ -364,8 +371,11 @@ class Prop:
         "no intermediate leaves `int`: |4*(day number+32044)+3| < 2^31 (years up to about +-1.4 million); the theorems are over unbounded integers",
         "zone theorems hold for tables satisfying WF (first clause: what addTransition stores - holds for every table the reader loads: theorem tzfile_table_wf; second: the gap "
         "between consecutive transitions exceeds the two adjacent offset changes together); evaluated on every file, violations are listed in the evidence",
-        "before a table's first transition and after its last one the code uses the first / last record (FIXMEs in TimeZone.cc); agreement "
-        "with glibc is claimed and tested only between first and last transition",
+        "before a table's first transition the first local time type (localtimes.front()) is in force - an era like the others: the "
+        "first transition repeats / skips local times too (zone_roundtrip with k = 0, zone_roundtrip_before, zone_skipped_first; the "
+        "gap rule of WF counts the first transition's offset change); after the last one the code uses the last record (FIXME in "
+        "TimeZone.cc); agreement with glibc's localtime_r is claimed and tested only between first and last transition (glibc cannot be "
+        "asked for a side of a repeated period: both copies have isdst = 0)",
         "IPv6 text is glibc's: only muduo's `[..]:port` wrapper is modelled; the compressions are tested to round-trip, not proved",
         "version-3 TZif files (7 on this image) are read through their 32-bit block because the reader tests version == \"2\" "
         "(ZoneDesc.selected in the theorems, `tzif_read` in the oracle say the same)",
@@ -573,14 +583,16 @@ class Prop:
                         fail(i, "zone-fixed", "fixed offset %d: %s" % (eo, res))
                     continue
                 z = zone
-                if not z.u or t < z.u[0]:
-                    # before the first transition / no transitions: the first record (documented FIXME); round trip only
+                if not z.u:
+                    # no transitions: the first record
                     eo = z.types[0][0]
                     if off != eo or got_lt != break_py(t + eo):
-                        fail(i, "zone-lookup", "before the first transition: %s, first record has offset %d" % (res, eo))
-                    elif not z.u and (f0 != t or f1 != t):
+                        fail(i, "zone-lookup", "zone without transitions: %s, first record has offset %d" % (res, eo))
+                    elif f0 != t or f1 != t:
                         fail(i, "zone-roundtrip", "zone without transitions: fromLocalTime(toLocalTime(%d)) = %d / %d" % (t, f0, f1))
                     continue
+                # before the first transition the first local time type is in force (what the code and glibc do): an era like
+                # the others - the first transition, too, repeats or skips local times
                 eo = z.offset_at(t)
                 if off != eo or got_lt != break_py(t + eo):
                     fail(i, "zone-lookup", "toLocalTime(%d) = %s, the table says offset %d local %s" % (t, res, eo, break_py(t + eo)))
@@ -595,7 +607,9 @@ class Prop:
                 if (f0, f1) != (exp0, exp1):
                     side = "repeated period, t is the %s instant" % ("earlier" if t == S[0] else "later") if len(S) == 2 else "unambiguous local time"
                     last = " (period repeated by the LAST transition)" if z.era(t) == len(z.u) - 1 or z.era(S[-1]) == len(z.u) - 1 else ""
-                    fails.append((i, "zone-roundtrip-last" if last and len(S) == 2 else "zone-roundtrip",
+                    if len(S) == 2 and z.era(S[0]) == -1:
+                        last = " (period repeated by the FIRST transition)"
+                    fails.append((i, "zone-roundtrip-first" if "FIRST" in last else "zone-roundtrip-last" if last and len(S) == 2 else "zone-roundtrip",
                                   "step %d `%s` in %s: %s%s: fromLocalTime(toLocalTime(t), false/true) = %d / %d, expected %d / %d" % (
                                       i, ops[i], zone_path, side, last, f0, f1, exp0, exp1)))
                     continue
@@ -610,26 +624,22 @@ class Prop:
                 L = days_from_civil(y, mo, d) * 86400 + h * 3600 + mi * 60 + s
                 f0, f1 = int(r[1]), int(r[2])
                 z = zone
-                if not z.u or L < z.u[0] + z.o[0]:
+                if not z.u:
                     continue
                 S = z.instants_of_local(L)
                 if len(S) == 0:
                     k = z.skipped_by(L)
                     if k is None:
                         continue
-                    exp = (L - z.o[k - 1], L - z.o[k])
+                    exp = (L - z.prev_offset(k), L - z.o[k])
                     what = "skipped local time (transition %d)" % k
                 elif len(S) <= 2:
-                    if S[0] < z.u[0] + 86400 and len(S) == 1 and z.era(S[0]) == 0:
-                        # could also be a local time of the record in force before the first transition
-                        if (f0, f1) != (S[0], S[0]):
-                            continue
                     exp = (S[0], S[-1])
                     what = "repeated local time" if len(S) == 2 else "unambiguous local time"
                 else:
                     continue
                 if (f0, f1) != exp:
-                    fail(i, "zone-fromlocal", "%s in %s: fromLocalTime(false/true) = %d / %d, expected %d / %d" % (what, zone_path, f0, f1, exp[0], exp[1]))
+                    fail(i, "zone-fromlocal-first" if (len(S) == 0 and k == 0) or (len(S) == 2 and z.era(S[0]) == -1) else "zone-fromlocal", "%s in %s: fromLocalTime(false/true) = %d / %d, expected %d / %d" % (what, zone_path, f0, f1, exp[0], exp[1]))
             elif name == "ip4":
                 a, p = int(w[1]) % (1 << 32), int(w[2]) % (1 << 16)
                 text = str(ipaddress.IPv4Address(a))
@@ -809,8 +819,8 @@ class Prop:
             if -2 ** 36 < t < 2 ** 36:
                 lines.append("probe %d" % t)
         # local times around every gap (skipped) and every overlap (repeated), from the civil side
-        for k in range(1, n):
-            a, b = z.u[k] + z.o[k - 1], z.u[k] + z.o[k]
+        for k in range(0, n):
+            a, b = z.u[k] + z.prev_offset(k), z.u[k] + z.o[k]
             for L in {a - 1, a, a + 1, (a + b) // 2, b - 1, b, b + 1}:
                 if -2 ** 36 < L < 2 ** 36:
                     lines.append("fromlocal %d %d %d %d %d %d" % break_py(L))
